@@ -299,6 +299,9 @@ func TestC09_CrashPoints(t *testing.T) {
 						}
 					}
 					if o.msg == "" {
+						if i%2 == 0 {
+							c09AgeHome(h) // the next use comes hours later: whatever the event left behind is old by then
+						}
 						r2 := runWtf(h, dir, followArgs)
 						got2 := readOrNil(h.Notebook())
 						want2 := followOnOld
@@ -327,6 +330,9 @@ func TestC09_CrashPoints(t *testing.T) {
 						}
 					}
 					if o.msg == "" {
+						if i%2 == 0 {
+							c09AgeHome(h)
+						}
 						runWtf(h, dir, followArgs)
 						got2, err2 := loadHist(h.History())
 						if err2 != nil {
@@ -348,5 +354,16 @@ func TestC09_CrashPoints(t *testing.T) {
 			late := o.cp.N > 0 && o.cp.Sys != "mkdirat" && o.cp.Sys != "mkdir" && (o.cp.Sys != "openat" || o.cp.Mode != "kill")
 			rec.Case(late, map[string]any{"target": target, "op": args, "point": o.cp.String(), "state_after": o.st, "file_mode": fileMode}, "crash-point", "mode:"+fileMode, "crash:"+o.cp.Mode, "crash-sys:"+o.cp.Sys, "after:"+o.st)
 		}
+	})
+}
+
+// c09AgeHome sets the modification time of everything under the home directory two hours back.
+func c09AgeHome(h *proc.Home) {
+	then := time.Now().Add(-2 * time.Hour)
+	_ = filepath.Walk(h.Dir, func(p string, info os.FileInfo, err error) error {
+		if err == nil && info.Mode()&os.ModeSymlink == 0 {
+			_ = os.Chtimes(p, then, then)
+		}
+		return nil
 	})
 }
